@@ -294,7 +294,29 @@ func checkESRCH(c *Check, handle *ssa.Function) {
 	esrch := p.Sys("ESRCH")
 	// every comparison `err == ESRCH` in handle: err's producers do not wrap
 	n := 0
-	for _, b := range handle.Blocks {
+	// the handler and the helpers of its package it calls (code split off the handler)
+	var blocks []*ssa.BasicBlock
+	{
+		seenF := map[*ssa.Function]bool{}
+		var rec func(f *ssa.Function, d int)
+		rec = func(f *ssa.Function, d int) {
+			if f == nil || seenF[f] || len(f.Blocks) == 0 {
+				return
+			}
+			seenF[f] = true
+			blocks = append(blocks, f.Blocks...)
+			if d == 0 {
+				return
+			}
+			for _, ci := range callInstrs(f) {
+				if callee := ci.Common().StaticCallee(); callee != nil && inModule(callee) && callee.Pkg == handle.Pkg && callee.Signature.Recv() != nil {
+					rec(callee, d-1)
+				}
+			}
+		}
+		rec(handle, 1)
+	}
+	for _, b := range blocks {
 		iff := blockIf(b)
 		if iff == nil {
 			continue
